@@ -110,6 +110,8 @@ def gen_case(rng, params, idx):
             if rng.random() < 0.7:
                 m["kw"] = [{"n": "k1", "t": rng.choice([["L", 1], ["L", 2, 3], ["D", "int", "even"], ["D", "int", "ge3"], "int", "object"]),
                             "req": rng.random() < 0.5}]
+            if rng.random() < 0.5:
+                m["pos"][-1]["opt"] = True      # a trailing optional positional the caller may omit
     spec = {"hier": hier, "methods": methods, "npos": npos, "composite": composite}
     vals = VALUES + [["i", n] for n in names]
     if kwflavour:
@@ -118,6 +120,8 @@ def gen_case(rng, params, idx):
         for c in calls:
             c.pop("alt", None)
             c["pos"] = c["pos"][:npos] if len(c["pos"]) >= npos else cg.args(rng, npos)
+            if rng.random() < 0.4:
+                c["pos"] = c["pos"][:-1]
     elif npos == 1:
         calls = [{"pos": [v], "kw": {}} for v in vals]
     else:
